@@ -292,6 +292,28 @@ def late_cases(tier, seed):
             out.append({"c": "stat", "what": "runner-drift%d-volatility%d-closed-form" % (has_d, has_v), "ok": bool(ok)})
         except Exception as ex:  # noqa: BLE001
             out.append({"c": "stat", "what": "runner-setup-raised-" + type(ex).__name__, "ok": False})
+    # two market types in one configuration: what one declares does not leak into the other; a declared fundamentalPrice (not
+    # the marketPrice) is where the fundamental starts
+    for first in ("A", "B"):
+        cfg = {"simulation": {"markets": ["A", "B"] if first == "A" else ["B", "A"], "agents": [], "sessions": [
+            {"sessionName": 0, "iterationSteps": 3, "withOrderPlacement": True, "withOrderExecution": True, "withPrint": False}]},
+            "A": {"class": "Market", "tickSize": 0.01, "marketPrice": 300.0, "fundamentalPrice": 360.0, "fundamentalDrift": 0.002,
+                  "fundamentalVolatility": 0.0},
+            "B": {"class": "Market", "tickSize": 0.01, "marketPrice": 100.0}}
+        try:
+            with warnings.catch_warnings():
+                warnings.simplefilter("ignore")
+                r = SequentialRunner(settings=cfg, prng=random.Random(4))
+                r._setup()
+            f = r.simulator.fundamentals
+            pa = f.get_fundamental_prices(market_id=r.simulator.name2market["A"].market_id, times=range(0, 10))
+            pb = f.get_fundamental_prices(market_id=r.simulator.name2market["B"].market_id, times=range(0, 10))
+            out.append({"c": "stat", "what": "runner-starts-at-the-declared-fundamentalPrice",
+                        "ok": bool(all(abs(pa[j] - 360.0 * math.exp(0.002 * j)) <= 1e-9 * 360.0 for j in range(10)))})
+            out.append({"c": "stat", "what": "runner-market-without-drift-and-volatility-stays-at-its-price",
+                        "ok": bool(all(x == 100.0 for x in pb))})
+        except Exception as ex:  # noqa: BLE001
+            out.append({"c": "stat", "what": "runner-setup-raised-" + type(ex).__name__, "ok": False})
     return out
 
 
